@@ -171,6 +171,7 @@ func runHarness(ld *Loaded, spec HarnessSpec, tier string, workers int, twin boo
 					maxSteps: maxSteps, reached: reached, symvals: map[string]*Term{}, names: map[string]int{}, params: params, hpkg: spec.pkgPath()}
 				i.initConc(spec.POR)
 				i.cs.coarse = params["__coarse"] == 1
+				i.raceInit(params["__race"] == 1)
 				end := runPath(i, h)
 				i.killAll()
 				res.mu.Lock()
